@@ -182,4 +182,8 @@ def check(ctx: Ctx) -> str:
     from . import c38
 
     ctx.run_imported("C38", {"R1"}, c38.check)
+    # the internal `missing` sentinel never stands in for an undefined value (rule owned by C03)
+    from . import c03
+
+    ctx.run_imported("C03", {"R6"}, c03.check)
     return __doc__ or ""
